@@ -127,7 +127,7 @@ def thorough_verus(u, base, seed, work, log):
     from .unit import Extract
     # canaries: every contracted function, re-verified with `ensures false`, must FAIL
     for part in sc.parts:
-        if isinstance(part, Extract) and part.path.split(' :: ')[-1].startswith('fn ') and any(s.kind == 'sig' for s in part.splices):
+        if isinstance(part, Extract) and part.path.split(' :: ')[-1].startswith('fn ') and any(s.kind == 'sig' for s in part.splices) and not part.assume_body:
             asm = assemble(sc, canary=part.path)
             r = VB.run_verus(asm, work, u['name'] + '_canary')
             ok = r.status == 'failed' and any(f.kind == 'canary' for f in r.failures)
@@ -237,6 +237,17 @@ def _run(prop, units, tier, seed, work, t0):
                 n_fn = len([f for f in asm.functions if ' fn ' in ' ' + f['item'] or f['item'].startswith('fn ')])
                 n_obl = asm.clause_count + n_fn            # clauses + one safety group (bounds/overflow/termination) per function
                 failed = res.failures
+                # a unit that serves several properties names, per function, the properties that depend on it: a failed
+                # obligation of a function this property does not depend on is not a violation of THIS property
+                fnp, dfl = u.get('fn_properties'), u.get('default_fn_properties')
+                if fnp is not None:
+                    def _relevant(f):
+                        nm = (f.fn or '').split(' :: ')[-1].replace('fn ', '').strip()
+                        return prop in fnp.get(nm, dfl or u['properties'])
+                    other = [f for f in failed if f.kind not in ('spec-lemma', 'canary') and not _relevant(f)]
+                    failed = [f for f in failed if f not in other]
+                    if other:
+                        extra_info.setdefault(name, {})['failed_obligations_of_functions_this_property_does_not_depend_on'] = [f.obligation for f in other]
                 mach = [f for f in failed if f.kind in ('spec-lemma', 'canary')]
                 if mach:
                     raise Undecided('%s: a code-independent lemma of the sidecar failed: %s (%s)' % (name, mach[0].obligation, mach[0].message))
